@@ -73,6 +73,11 @@ def run(R):
                       "named graph of the query dataset (all of them, no truncation) with ?g bound to that graph; an iteration is skipped only "
                       "because the graph does not exist or is not a named graph; for a bound ?g the pattern runs iff that graph is visible "
                       "and exists")
+    R.rule("C01-R16", "graph scope survives a scope reset: a subquery is evaluated from fresh bindings, so inside `GRAPH ?g { { SELECT .. } }` the row no "
+                      "longer binds ?g. (a) the executor arm that restarts from fresh bindings hands the same execution context (with its active "
+                      "graph) to the inner plan; (b) a scan whose graph variable is unbound in its row consults the context's active graph before it "
+                      "ranges over all named graphs - otherwise the subquery is evaluated over every graph and, ?g projected away, joined to "
+                      "the patterns of whichever graph is current")
     R.rule("C01-R14", "ORDER BY comparators (top level and subquery) agree and are lexicographic over ALL keys: each walks every sort key in "
                       "order, compares numerically when both values parse as numbers and lexically otherwise, reverses exactly under "
                       "DESC, returns at the first key that is not Equal and Equal only after the last key")
@@ -93,6 +98,7 @@ def run(R):
     r11(R)
     r12(R)
     r13(R)
+    r16(R)
     r14(R)
     r15(R)
 
@@ -1037,6 +1043,65 @@ def r13(R):
         ins = [c for c in b.calls() if c.bb in blocks and c.name() == "insert" and _is_row(b, c.args[0])]
         R.ob("C01-R13", "binds-g", "the row handed to the inner pattern binds ?g to the visited graph", len(ins) >= 1 and all(b.dominates(i.bb, r.bb) for i in ins for r in rec),
              where=b.where(rec[0].ln))
+
+
+def r16(R):
+    prog = R.prog
+    ex = R.body("C01-R16", "ExecutionEngine::execute_with_ids_and_input", crate="kolibrie")
+    sc = R.body("C01-R16", "ExecutionEngine::execute_quad_scan_with_ids", crate="kolibrie")
+    if ex is None or sc is None:
+        return
+    # (a) scope resets: recursive executions whose bindings argument is not derived from the incoming parameter
+    names = [ex.local_name(i) for i in range(1, ex.nargs + 1)]
+    if "context" not in names or "incoming" not in names:
+        R.ob("C01-R16", "params", "the executor has `context` and `incoming` parameters", False, where=ex.where())
+        return
+    ctx_l, inc_l = names.index("context") + 1, names.index("incoming") + 1
+    resets = []
+    for x in prog.family(ex.key):
+        if x.key != ex.key:
+            continue
+        for c in x.calls():
+            if c.key != ex.key or len(c.args) < 4:
+                continue
+            d = P.derives(prog, x, F.op_place(c.args[3])["l"]) if F.op_place(c.args[3]) else set()
+            if ("param", "incoming") not in d:
+                resets.append(c)
+    R.floor("C01-R16", "executor arms that restart from fresh bindings", len(resets), 1)
+    for c in resets:
+        same = F.op_place(c.args[2]) is not None and ex.alias_root(c.args[2]) == ctx_l
+        R.ob("C01-R16", "reset-keeps-context", "the arm that restarts from fresh bindings passes its own execution context on", same, where=ex.where(c.ln),
+             detail=None if same else "a different context drops the active graph (and the query dataset) for everything inside the subquery")
+    # (b) the all-named-graphs loop of the scan is reached only after the active graph was consulted
+    snames = [sc.local_name(i) for i in range(1, sc.nargs + 1)]
+    if "context" not in snames:
+        R.ob("C01-R16", "scan-params", "the scan has a `context` parameter", False, where=sc.where())
+        return
+    sctx = snames.index("context") + 1
+    loops = []
+    for h, blocks, nm in P.loops_over(sc, ["visible_graphs"]).get("visible_graphs", []):
+        if any(c.bb in blocks and c.name() == "scan_one_graph" for c in sc.calls()):
+            loops.append((h, blocks))
+    if not loops:
+        # any loop that scans one graph per turn and is not the loop over the incoming rows
+        inc = {h for h, bl, nm in P.loops_over(sc, ["incoming"]).get("incoming", [])}
+        for h, blocks in (sc.loops().items() if isinstance(sc.loops(), dict) else sc.loops()):
+            if h not in inc and any(c.bb in blocks and c.name() == "scan_one_graph" for c in sc.calls()):
+                loops.append((h, blocks))
+    R.floor("C01-R16", "loops of the scan that range over named graphs", len(loops), 1)
+    reads = set()
+    for bb, i, pl, rv, st in sc.assigns():
+        if rv["rv"] not in ("discriminant", "use", "ref"):
+            continue
+        for q, k in F.rv_places(rv):
+            if q["l"] == sctx and [e.get("n") for e in q["p"] if e["k"] == "field"][:1] == ["active_graph"] and \
+                    not any(e["k"] == "downcast" for e in q["p"]):
+                reads.add(bb)
+    for h, blocks in loops:
+        ok = any(sc.dominates(rb, h) for rb in reads)
+        R.ob("C01-R16", "scan-consults-active-graph", "the scan ranges over all named graphs only after testing the context's active graph", ok,
+             where=sc.where(sc.blocks[h].get("ln")), detail=None if ok else "inside GRAPH ?g { { SELECT .. } } the subquery's scans start from a row "
+             "without ?g and range over every named graph; with ?g projected away the join no longer ties the subquery to the current graph")
 
 
 def r14(R):
